@@ -309,6 +309,13 @@ func runC11(rc *RunCtx) {
 	}
 	dev := dn.Device(server, unit)
 	multi := fmt.Sprintf("multibyte=%v", payloadBytes > 1)
+	// the write side on its own: what the device (which unpacks as the specification says) now holds is the pattern
+	for i, want := range pattern {
+		if got := dev.Bit(TabCoils, uint16(ws+i)); got != want {
+			rc.Violate("write_packing_differs", fmt.Sprintf("%s|coils=%s", fr, bucketName(wq)), "write-multiple-coils of %d coils at %d: coil %d (bit %d of data byte %d) was written as %v, the device received %v", wq, ws, ws+i, i%8, i/8, want, got)
+			break
+		}
+	}
 	if viaBuilder {
 		for i := range builderReqs {
 			fieldReq := &builderReqs[i]
@@ -451,4 +458,16 @@ func coilPayload(resp packet.Response) []byte {
 		return r.Data
 	}
 	return nil
+}
+
+func bucketName(n int) string {
+	switch {
+	case n <= 8:
+		return "le8"
+	case n < 64:
+		return "lt64"
+	case n < 256:
+		return "lt256"
+	}
+	return "ge256"
 }
